@@ -524,3 +524,9 @@ package utils
 //@   loop 1:
 //@     invariant 0 <= i && len(word) > 0
 //@ end
+
+// error construction: allocates an error value, writes nothing else (ASSUMED)
+//@ func NewErrorWithCode
+//@   assumed
+//@   pure
+//@ end
